@@ -11,7 +11,7 @@ use crate::util::{Args, Report, TraceOut, catch, read_lines};
 
 /// Hex text of a frame, written here only to build *inputs* (seeds for mutation, strings to damage) even when the
 /// library's own encoder panics; it is never used as an oracle.
-fn seed_encoding(addr: u16, ty: u8, data: &[u8], nl: bool) -> Vec<u8> {
+pub fn seed_encoding(addr: u16, ty: u8, data: &[u8], nl: bool) -> Vec<u8> {
     let mut payload = vec![data.len() as u8, (addr >> 8) as u8, addr as u8, ty];
     payload.extend_from_slice(data);
     let sum = payload.iter().fold(0u8, |a, &b| a.wrapping_add(b));
@@ -24,14 +24,6 @@ fn seed_encoding(addr: u16, ty: u8, data: &[u8], nl: bool) -> Vec<u8> {
         s.extend_from_slice(b"\r\n");
     }
     s
-}
-
-fn lib_encoding(addr: u16, ty: u8, data: &[u8], nl: bool) -> Vec<u8> {
-    catch(|| {
-        let f = j::mk_frame(addr, ty, data);
-        if nl { f.to_bytes_with_newline() } else { f.to_bytes() }
-    })
-    .unwrap_or_else(|_| seed_encoding(addr, ty, data, nl))
 }
 
 fn rand_len(rng: &mut StdRng) -> usize {
@@ -226,8 +218,8 @@ pub fn record_c02(a: &Args) -> usize {
     for (addr, ty, data) in frames {
         for nl in [false, true] {
             out.balance();
-            let enc = lib_encoding(addr, ty, &data, nl);
-            out.emit(json!({"e": "valid", "addr": addr, "type": ty, "data": j::bytes(&data), "nl": nl, "enc": j::bytes(&enc), "res": decode(&enc)}));
+            let enc = seed_encoding(addr, ty, &data, nl);
+            out.emit(json!({"e": "valid", "addr": addr, "type": ty, "data": j::bytes(&data), "nl": nl, "enc": j::bytes(&enc)}));
             damage_all(&mut out, &enc);
         }
     }
@@ -713,7 +705,6 @@ pub fn replay_c05(path: &str) {
                 continue;
             }
         };
-        let _ = rep.cmp("wire", &ctx, &v["wire"], &j::bytes(&wire));
         let back = catch(|| Frame::from_bytes(&wire).map(Message::from));
         match back {
             Ok(Ok(b)) => {
